@@ -14,7 +14,7 @@ import common  # noqa: E402
 from streams import gather as G  # noqa: E402
 
 EXT = {"sig": ".sig", "lin": ".sig", "lazy": ".sig", "zip": ".zip", "sbt": ".sbt.zip", "lca": ".lca.json", "sql": ".sqldb",
-       "dir": "_dir", "multi": "_multi", "pl": ".pathlist.txt", "mf": ".manifest.csv"}
+       "zipnm": ".nm.zip", "dir": "_dir", "multi": "_multi", "pl": ".pathlist.txt", "mf": ".manifest.csv"}
 
 
 class SubprocRunner:
@@ -75,6 +75,24 @@ class ServerRunner:
             self.p.kill()
 
 
+def inner_paths(kind, p, n, distract=False):
+    """the file each of the n signatures of a collection written by adapters/cli_files.py lives in (what the
+    `filename` / location of a match must name); with `distract` a foreign signature precedes and one follows them"""
+    off = 1 if distract and kind in ("sig", "zip", "zipnm", "dir", "multi", "pl", "mf") else 0
+    tot = n + 2 * off
+    h = (tot + 1) // 2
+    pos = [k + off for k in range(n)]
+    if kind == "dir":
+        return [os.path.join(p, f"{k:03d}.sig") for k in pos]
+    if kind == "mf":
+        return [os.path.join(p + ".d", f"{k:03d}.sig") for k in pos]
+    if kind == "multi":
+        return [os.path.join(p, "a.sig") if k < h else os.path.join(p, "sub", "b.sig") for k in pos]
+    if kind == "pl":
+        return [os.path.join(p + ".d", "a.zip") if k < h else os.path.join(p + ".d", "b.sig") for k in pos]
+    return [p] * n
+
+
 def as_runner(x):
     return SubprocRunner(x) if isinstance(x, str) else x
 
@@ -93,7 +111,7 @@ def case_tables(case):
     return sigs, files
 
 
-def write_files(case, pkg, kinds=None, query_slot=0):
+def write_files(case, pkg, kinds=None, query_slot=0, distract=False, extra_queries=()):
     """-> (tmpdir, query path, {db slot: path}); `kinds` = {db slot: file kind} overrides the kind of a collection
     (the same signatures, organised differently on disk)"""
     runner = as_runner(pkg)
@@ -101,9 +119,11 @@ def write_files(case, pkg, kinds=None, query_slot=0):
     root = os.path.join(common.VERIF, ".build", "tmp")
     os.makedirs(root, exist_ok=True)
     d = tempfile.mkdtemp(prefix="cli_", dir=root)
-    spec = {"dir": d, "sigs": {str(k): v for k, v in sigs.items()}, "files": []}
+    spec = {"dir": d, "sigs": {str(k): v for k, v in sigs.items()}, "files": [], "distract": bool(distract)}
     paths = {}
     spec["files"].append({"path": "query.sig", "kind": "sig", "sigs": [query_slot]})
+    for q in extra_queries:
+        spec["files"].append({"path": f"query{q}.sig", "kind": "sig", "sigs": [q]})
     for slot, (kind, members) in files.items():
         if not members:
             continue
@@ -211,6 +231,9 @@ def cli_gather_case(args):
     k = case.index(gd)
     if not impl[k].startswith("ok"):
         return bad
+    # (a case may hold a second gather run, for multigather: this function looks at the first one)
+    hi = next((j for j in range(k + 1, len(case)) if case[j].split()[0] in ("sig", "gd")), len(case))
+    case_all, case, impl = case, case[:hi], impl[:hi]
     w = gd.split()
     thr, ign = int(w[2]), int(w[3])
     cs = w[6:]
@@ -220,7 +243,8 @@ def cli_gather_case(args):
     if mode == "prefetch" and w[4] == "-":
         return bad          # the CLI's prefetch mode corresponds to the ident / noident flavour only
     kinds = {int(a): b for a, b in (opts.get("kinds") or {}).items()}
-    d, qpath, paths = write_files(case, pkg, kinds=kinds, query_slot=opts.get("query_slot", 0))
+    d, qpath, paths = write_files(case, pkg, kinds=kinds, query_slot=opts.get("query_slot", 0),
+                                  distract=opts.get("distract"))
     if d is None:
         return [("C07:cli:cannot-write-files", str(paths), {"case": case})]
     try:
@@ -230,6 +254,26 @@ def cli_gather_case(args):
         out = os.path.join(d, "out.csv")
         un = os.path.join(d, "un.sig")
         a = ["gather", qpath] + dbs + ["--threshold-bp", str(thr), "-o", out, "--output-unassigned", un]
+        if opts.get("distract"):
+            # the query file also holds a k=31 signature: pick ours by ksize or by md5 prefix
+            qmd5 = f"{G.parse_case(case)[0][opts.get('query_slot', 0)]['md5']:032x}"
+            a += ["-k", "21"] if opts.get("distract") == "k" else ["--md5", qmd5[:10]]
+        pfc = os.path.join(d, "prefetch.csv")
+        if opts.get("save_prefetch_csv") and mode == "prefetch":
+            a += ["--save-prefetch-csv", pfc]
+        if opts.get("picklist"):
+            # prefetch -> gather hand-over: gather restricted to the matches `sourmash prefetch` wrote must report
+            # what gather over the whole databases reports
+            pl = os.path.join(d, "pl.csv")
+            rcp, _, sep = run_cli(pkg, ["prefetch", qpath] + dbs + ["--threshold-bp", str(thr), "-o", pl] +
+                                  (["-k", "21"] if opts.get("distract") == "k" else
+                                   ["--md5", qmd5[:10]] if opts.get("distract") else []), d)
+            if rcp == 0 and read_csv(pl):
+                a += ["--picklist", pl + "::prefetch"]
+            elif rcp != 0 and "'containment' requires 'scaled' in Index.select" in sep and "zipnm" in kinds.values():
+                pass            # finding C08.7 (prefetch on a zip without manifest): reported by C08
+            elif rcp != 0 and "unattainable" not in sep:
+                bad.append(("C07:cli:prefetch-exit-%d" % rcp, sep[-300:], {"case": case}))
         if ign:
             a.append("--ignore-abundance")
         if mode == "ondemand":
@@ -251,6 +295,17 @@ def cli_gather_case(args):
         if opts.get("create_empty"):
             a.append("--create-empty-results")
         rc, so, se = run_cli(pkg, a, d)
+        if rc != 0 and "--save-prefetch-csv" in a and "is lower than current sample scaled" in se:
+            bad.append(("C07:cli:gather-save-prefetch-csv-crashes:match-coarser-than-query",
+                        "`sourmash gather --save-prefetch-csv` died with 'new scaled .. is lower than current sample "
+                        "scaled ..': the rows of the prefetch CSV are built at the query's scaled, finer than the match",
+                        {"case": case, "args": a}))
+            a = [x for x in a if x not in ("--save-prefetch-csv", pfc)]
+            opts = dict(opts, save_prefetch_csv=False)
+            for f in (out, un):
+                if os.path.exists(f):
+                    os.remove(f)
+            rc, so, se = run_cli(pkg, a, d)
         if rc != 0 and "remaining_mh += noident_mh" in se and "mismatch in scaled" in se:
             bad.append(("C07:cli:gather-output-unassigned-crashes:match-coarser-than-query",
                         "`sourmash gather --output-unassigned` died with 'mismatch in scaled' at "
@@ -291,6 +346,25 @@ def cli_gather_case(args):
                 bad.append(("C07:cli:gather-csv-differs-from-api",
                             f"round {i}: cli={rows[i][:200] if i < len(rows) else '<none>'} api={exp[i][:200] if i < len(exp) else '<none>'}",
                             {"case": case, "args": a, "cli": rows, "api": exp}))
+            # the `filename` column: a collection given on the command line that holds the reported sketch
+            psigs, _ = G.parse_case(case)
+            _, ftab = case_tables(case)
+            where = {}
+            for c_ in cs:
+                slot = int(c_[1:])
+                members = ftab.get(slot, ("", []))[1]
+                if slot not in paths:
+                    continue
+                kind_ = kinds.get(slot, "sig")
+                for m_, ip in zip(members, inner_paths(kind_, paths[slot], len(members), opts.get("distract"))):
+                    where.setdefault(psigs[m_]["md5"], []).append(ip)
+            for r_ in read_csv(out):
+                fn, ps = r_.get("filename", ""), [x for x in where.get(int(r_["md5"], 16), []) if x]
+                if fn not in ps:
+                    bad.append(("C07:cli:gather-filename-column",
+                                f"round {r_['gather_result_rank']}: filename={fn!r}, the match is held by "
+                                f"{[os.path.basename(x) for x in ps]}", {"case": case, "args": a}))
+                    break
             same_all = len(rows) == len(exp) and all(same_row(x, y) for x, y in zip(rows, exp))
             if opts.get("save_matches") and same_all and exp:
                 got = _sig_md5s(sm)
@@ -309,6 +383,17 @@ def cli_gather_case(args):
                     bad.append(("C07:cli:save-prefetch-differs",
                                 f"--save-prefetch holds {sorted(got or [])[:6]}..., the counters hold {sorted(want)[:6]}...",
                                 {"case": case, "args": a}))
+            if opts.get("save_prefetch_csv") and mode == "prefetch" and rc == 0:
+                got = {r["match_md5"] for r in read_csv(pfc)}
+                want = set()
+                for l, o in zip(case, impl):
+                    if l.startswith("cg ") and o.startswith("ok ") and ":" in o:
+                        body = o.split(" ")[1].split(":", 1)[1]
+                        want |= {f"{int(x.split('=')[0]):032x}"[:8] for x in body.split(",") if x}
+                if got != want:
+                    bad.append(("C07:cli:save-prefetch-csv-differs",
+                                f"--save-prefetch-csv lists {sorted(got)[:6]}, the counters hold {sorted(want)[:6]}",
+                                {"case": case, "args": a}))
             if opts.get("create_empty") and not exp and not os.path.exists(out):
                 bad.append(("C07:cli:create-empty-results-missing",
                             "--create-empty-results: no CSV although gather found nothing", {"case": case, "args": a}))
@@ -318,52 +403,64 @@ def cli_gather_case(args):
 
 
 def cli_multigather_case(args):
-    """one thorough-tier case of C07 through `sourmash multigather` (prefetch counters + the ident / noident split
-    done by the command itself): the CSV it writes for the query against the in-process observations of the same
-    case, and the `.unassigned` signature against what gather left plus the never-identified hashes (downsampled to
-    the final comparison scaled).
-    args = (case, impl, pkg | runner[, opts]) -> list of (signature, message, data)"""
+    """one case of C07 through `sourmash multigather` (prefetch counters + the ident / noident split done by the
+    command itself).  The case may hold SEVERAL gather runs (one `gd` per query): all their queries are given to ONE
+    invocation (`--query q1 q2 ...`), so that whatever the command keeps between queries (counters, noident, output
+    routing) shows; per query, the CSV against the in-process observations of that run and the `.unassigned`
+    signature against what gather left plus the never-identified hashes (downsampled to the final comparison scaled).
+    args = (case, impl, pkg | runner[, opts]) -> list of (signature, message, data); opts: kinds, add_md5 (-U)"""
     case, impl, pkg = args[0], args[1], args[2]
     opts = args[3] if len(args) > 3 else {}
     kinds = {int(a): b for a, b in (opts.get("kinds") or {}).items()}
     bad = []
-    gd = next((l for l in case if l.startswith("gd ")), None)
-    if gd is None:
+    gds = [k for k, l in enumerate(case) if l.startswith("gd ")]
+    if not gds or not all(impl[k].startswith("ok") for k in gds):
         return bad
-    k = case.index(gd)
-    if not impl[k].startswith("ok"):
-        return bad
-    w = gd.split()
-    thr, ign = int(w[2]), int(w[3])
-    cs = w[6:]
-    if not all(c.startswith("c") for c in cs) or w[4] == "-":
-        return bad          # multigather = prefetch counters + ident / noident
-    d, qpath, paths = write_files(case, pkg, kinds=kinds)
+    w0 = case[gds[0]].split()
+    thr, ign = int(w0[2]), int(w0[3])
+    for k in gds:
+        w = case[k].split()
+        if not all(c.startswith("c") for c in w[6:]) or w[4] == "-" or (int(w[2]), int(w[3])) != (thr, ign):
+            return bad          # multigather = prefetch counters + ident / noident, one threshold for all queries
+    sigs, _ = G.parse_case(case)
+    qslots = [int(case[k].split()[1]) for k in gds]
+    if len({sigs[q]["md5"] for q in qslots}) != len(qslots):
+        return bad          # the outputs are named after the queries' md5
+    d, qpath, paths = write_files(case, pkg, kinds=kinds, extra_queries=qslots[1:])
     if d is None:
         return [("C07:cli:cannot-write-files", str(paths), {"case": case})]
     try:
-        dbs = [paths[int(c[1:])] for c in cs if int(c[1:]) in paths]
+        # the databases of the FIRST run (every run of a case uses the same collections)
+        dslots = [int(l.split()[2]) for l in case[:gds[0]] if l.startswith("cg ")]
+        dbs = [paths[x] for x in dslots if x in paths]
         if not dbs:
             return bad
         outdir = os.path.join(d, "mg")
         os.makedirs(outdir, exist_ok=True)
-        a = ["multigather", "--query", qpath, "--db"] + dbs + ["--threshold-bp", str(thr), "--output-dir", outdir]
+        qfiles = [qpath] + [os.path.join(d, f"query{q}.sig") for q in qslots[1:]]
+        a = ["multigather", "--query"] + qfiles + ["--db"] + dbs + ["--threshold-bp", str(thr), "--output-dir", outdir]
         if ign:
             a.append("--ignore-abundance")
+        if opts.get("add_md5"):
+            a.append("-U")
         rc, so, se = run_cli(pkg, a, d)
-        # output base = basename of the signature's `filename` field, or its md5 when that is unset
-        found = [f[:-4] for f in os.listdir(outdir) if f.endswith(".csv")]
-        base = os.path.join(outdir, found[0]) if len(found) == 1 else os.path.join(outdir, os.path.basename(qpath))
-        rows = [gather_row_line(r) for r in read_csv(base + ".csv")]
-        exp = [api_row_line(o) for o in impl[k + 1:] if o.startswith("ok rank=")]
-        crashed = any(o.startswith("err") for o in impl[k + 1:])
+        crashed = any(o.startswith("err") for o in impl[gds[0] + 1:])
         if rc != 0 and not crashed:
-            bad.append(("C07:cli:multigather-exit-%d" % rc, se[-300:], {"case": case, "args": a}))
-        elif not crashed:
+            return [("C07:cli:multigather-exit-%d" % rc, se[-300:], {"case": case, "args": a})]
+        if crashed:
+            return bad
+        splits = [o for l, o in zip(case, impl) if l.startswith("split ")]
+        for j, k in enumerate(gds):
+            hi = gds[j + 1] if j + 1 < len(gds) else len(case)
+            # output base = basename of the signature's `filename` field, or its md5 when that is unset (ours)
+            base = os.path.join(outdir, f"{sigs[qslots[j]]['md5']:032x}")
+            rows = [gather_row_line(r) for r in read_csv(base + ".csv")]
+            exp = [api_row_line(o) for o in impl[k + 1:hi] if o.startswith("ok rank=")]
             i = _rows_agree(rows, exp, tie_ok=bool(kinds))
             if i is not None:
                 bad.append(("C07:cli:multigather-csv-differs-from-api",
-                            f"round {i}: cli={rows[i][:200] if i < len(rows) else '<none>'} api={exp[i][:200] if i < len(exp) else '<none>'}",
+                            f"query {j}, round {i}: cli={rows[i][:200] if i < len(rows) else '<none>'} "
+                            f"api={exp[i][:200] if i < len(exp) else '<none>'}",
                             {"case": case, "args": a, "cli": rows, "api": exp}))
             un = base + ".unassigned.sig"
             if exp and os.path.exists(un):
@@ -371,19 +468,19 @@ def cli_multigather_case(args):
                     got = set(json.load(open(un))[0]["signatures"][0]["mins"])
                 except Exception:           # noqa: BLE001
                     got = None
-                last = [o for o in impl[k:] if o.startswith(("ok", "stop"))]
+                last = [o for l, o in zip(case[k:hi], impl[k:hi])
+                        if l.split()[0] in ("gd", "next") and o.startswith(("ok", "stop"))]
                 left = set(G.ints(G.parse_kv(last[-1])["q"])) if last else set()
-                sp = next((o for l, o in zip(case, impl) if l.startswith("split ")), None)
-                noid = set(G.ints(G.parse_kv(sp)["noident"])) if sp else set()
-                scs = [int(G.parse_kv(o)["sc"]) for o in impl[k + 1:] if o.startswith("ok rank=")]
+                noid = set(G.ints(G.parse_kv(splits[j])["noident"])) if j < len(splits) else set()
+                scs = [int(G.parse_kv(o)["sc"]) for o in impl[k + 1:hi] if o.startswith("ok rank=")]
                 noid = G.down(noid, max(scs))
                 if got is not None and got != (left | noid) and not kinds:
                     bad.append(("C07:cli:multigather-unassigned-differs",
-                                f".unassigned.sig holds {len(got)} hashes, expected {len(left | noid)}",
+                                f"query {j}: .unassigned.sig holds {len(got)} hashes, expected {len(left | noid)}",
                                 {"case": case, "args": a}))
             elif exp and not os.path.exists(un):
-                bad.append(("C07:cli:multigather-unassigned-missing", "no .unassigned.sig although matches were found",
-                            {"case": case, "args": a}))
+                bad.append(("C07:cli:multigather-unassigned-missing",
+                            f"query {j}: no .unassigned.sig although matches were found", {"case": case, "args": a}))
     finally:
         shutil.rmtree(d, ignore_errors=True)
     return bad
@@ -401,7 +498,8 @@ def quick_gather_batch(args):
             bad = cli_gather_case((case, impl, r, opts))
             n = 1
             if any(l.startswith("split ") for l in case):
-                bad = bad + cli_multigather_case((case, impl, r, {"kinds": opts.get("kinds")}))
+                bad = bad + cli_multigather_case((case, impl, r, {"kinds": opts.get("kinds"),
+                                                                   "add_md5": opts.get("mg_add_md5")}))
                 n += 1
             out.append((bad, n))
     finally:
@@ -416,8 +514,8 @@ def quick_partition_batch(args):
     r = ServerRunner(pkg)
     out = []
     try:
-        for case, impl, kinds in jobs:
-            out.append(cli_partition_case((case, r, kinds, impl)))
+        for n, (case, impl, kinds) in enumerate(jobs):
+            out.append(cli_partition_case((case, r, kinds, impl, n % 2 == 1)))
     finally:
         r.close()
     return out
@@ -444,7 +542,9 @@ def cli_partition_case(args):
     case, pkg = args[0], args[1]
     kinds = {int(a): b for a, b in ((args[2] if len(args) > 2 else None) or {}).items()}
     impl = args[3] if len(args) > 3 else None
-    d, qpath, paths = write_files(case, pkg, kinds=kinds)
+    distract = args[4] if len(args) > 4 else False
+    KX = ["-k", "21"] if distract else []     # the files also hold k=31 and num signatures: they must be ignored
+    d, qpath, paths = write_files(case, pkg, kinds=kinds, distract="k" if distract else None)
     if d is None:
         return [("C08:cli:cannot-write-files", str(paths), {"case": case})]
     obs = []
@@ -464,7 +564,7 @@ def cli_partition_case(args):
                     out = os.path.join(d, "s.csv")
                     if os.path.exists(out):
                         os.remove(out)
-                    a = ["search", qpath] + dbs + ["--threshold", repr(int(w[3]) / int(w[4])), "-o", out]
+                    a = ["search", qpath] + dbs + ["--threshold", repr(int(w[3]) / int(w[4])), "-o", out] + KX
                     a += {"j": [], "c": ["--containment"], "m": ["--max-containment"]}[w[1]]
                     rc, so, se = run_cli(pkg, a, d)
                     if rc != 0 and "ERROR: cannot use '" in se:
@@ -473,6 +573,22 @@ def cli_partition_case(args):
                         o = "err ValueError:varN<0" if "varN" in se else "err cli-exit-%d" % rc
                     else:
                         o = _canon([(int(r["md5"], 16), float(r["similarity"])) for r in read_csv(out)])
+                elif w[0] == "xsa" and w[1] == "0":
+                    # an abundance query: `sourmash search` runs search_databases_with_abund_query (angular similarity)
+                    dbs = [paths[int(x)] for x in w[5:] if int(x) in paths]
+                    out = os.path.join(d, "sa.csv")
+                    if os.path.exists(out):
+                        os.remove(out)
+                    a = ["search", qpath] + dbs + ["--threshold", repr(int(w[2]) / int(w[3])), "-o", out] + KX
+                    rc, so, se = run_cli(pkg, a, d)
+                    if rc != 0 and "ERROR: cannot use '" in se:
+                        o = None       # documented refusal: SBT / LCA similarity search with a coarser query
+                    elif rc != 0:
+                        o = "x err cli-exit-%d %s" % (rc, se[-200:].replace("\n", " | "))
+                    else:
+                        o = "x " + _canon([(int(r["md5"], 16), float(r["similarity"])) for r in read_csv(out)])
+                elif w[0] == "xsa":
+                    o = None
                 elif w[0] == "searchc":
                     o = None                      # best-only: the CLI prints one row; not compared here
                 elif w[0] == "pfallc":
@@ -482,12 +598,18 @@ def cli_partition_case(args):
                     out = os.path.join(d, "p.csv")
                     if os.path.exists(out):
                         os.remove(out)
-                    a = ["prefetch", qpath] + dbs + ["--threshold-bp", w[2], "-o", out]
+                    a = ["prefetch", qpath] + dbs + ["--threshold-bp", w[2], "-o", out] + KX
                     if any(lazy.get(int(x)) for x in w[3:]):
                         a.append("--linear")
                     rc, so, se = run_cli(pkg, a, d)
                     if rc != 0 and "unattainable" in se:
                         o = "x err ValueError"
+                    elif rc != 0 and "'containment' requires 'scaled' in Index.select" in se and \
+                            any(kinds.get(int(x)) == "zipnm" for x in w[3:]):
+                        asserts.append(("C08:cli:prefetch-crashes-on-collection-without-manifest",
+                                        "`sourmash prefetch` died with \"'containment' requires 'scaled' in Index.select'\" "
+                                        "on a zip archive of signature files without a manifest", {"case": case, "args": a}))
+                        o = None
                     elif rc != 0 and "assert result.pass_threshold" in se:
                         # search.prefetch_database re-checks every row of Index.prefetch in base pairs; for a query
                         # finer than the database Index.prefetch admits sketches below threshold_bp (D6) and the
@@ -511,7 +633,7 @@ def cli_partition_case(args):
                     out = os.path.join(d, "g.csv")
                     if os.path.exists(out):
                         os.remove(out)
-                    a = ["gather", qpath] + dbs + ["--threshold-bp", w[2], "-o", out]
+                    a = ["gather", qpath] + dbs + ["--threshold-bp", w[2], "-o", out] + KX
                     if w[3] == "1":
                         a.append("--ignore-abundance")
                     if w[4] == "o":
@@ -543,17 +665,17 @@ def cli_partition_case(args):
         c2, o2 = [l for l, _ in keep], [o for _, o in keep]
         bad = list(asserts)
         for idx, sig, msg in P.oracle(c2, o2):
-            bad.append((sig.replace("C08:", "C08:cli:", 1) if not sig.endswith(("coarser-than-stored-sketch", "scaled", "threshold_bp>0", "jaccard-ani")) else sig,
+            bad.append((sig.replace("C08:", "C08:cli:", 1) if not sig.endswith(("coarser-than-stored-sketch", "scaled", "threshold_bp>0", "jaccard-ani", "ignores-abundance")) else sig,
                         msg, {"case": case, "observations": o2, "op_index": idx}))
         for l, o in keep:
             if o.startswith(("err cli", "x err cli")):
                 bad.append(("C08:cli:command-failed", f"`{l[:80]}`: {o}", {"case": case}))
         if impl is not None:
             for l, o, io in zip(case, obs, impl):
-                if o is None or not l.startswith(("searchc", "xpfc")):
+                if o is None or not l.startswith(("searchc", "xpfc", "xsa")):
                     continue
                 io = io[:-5] if io.endswith(" L=ok") else io
-                if l.startswith("xpfc"):
+                if l.startswith(("xpfc", "xsa")):
                     # the reference for `sourmash prefetch` is search.prefetch_database run in-process on the same
                     # collections (rows of Index.prefetch that pass PrefetchResult.pass_threshold, f_match_query)
                     o, io = o[2:], io[2:]
